@@ -321,6 +321,45 @@ def run(report, p):
         else:
             r5.check(True, cf, a, "")
 
+    # ------------------------------------------------------------------ R17.7
+    r7 = report.rule(
+        "R17.7",
+        "chains of renames: the history's rename map (old path -> current path) is composed generation by generation - before a generation's renames are merged in, every "
+        "earlier entry whose current name is renamed by that generation is advanced to the new name - so a file renamed A -> B and later B -> C maps A to C "
+        "(a plain dict.update leaves A -> B, and B, which no longer exists, is reported missing for ever)",
+        1,
+    )
+    hm = p.funcs.get("ascmhl.history.MHLHistory.renamed_path_with_previous_path")
+    if hm is None:
+        raise AnalysisError("MHLHistory.renamed_path_with_previous_path not found")
+    gen_loops = [n for n in walk_no_nested(hm.node) if isinstance(n, ast.For) and norm(n.iter).endswith(".hash_lists")]
+    if len(gen_loops) != 1:
+        raise AnalysisError("rename map: loop over the generations not found")
+    gl_ = gen_loops[0]
+    r7.instance(hm, gl_, f"for {norm(gl_.target)} in {norm(gl_.iter)}")
+    r7.check(is_plain_iter(p, gl_.iter), hm, gl_.iter, "the rename map is not built from every generation in order", construct="rename map generations")
+    merges = [c for st in gl_.body for c in ast.walk(st) if isinstance(c, ast.Call) and isinstance(c.func, ast.Attribute) and c.func.attr == "update" and isinstance(c.func.value, ast.Name)]
+    if len(merges) != 1:
+        raise AnalysisError("rename map: the merge of one generation's renames into the map was not found")
+    acc = merges[0].func.value.id
+    # the composition step: inside the generation loop, before the merge, an assignment  acc[<k>] = <gen map>[<v>]  in a loop over acc's items under `<v> in <gen map>`
+    comp = []
+    for st in gl_.body:
+        for lp in [x for x in ast.walk(st) if isinstance(x, ast.For)]:
+            if acc not in norm(lp.iter):
+                continue
+            for a in [x for x in ast.walk(lp) if isinstance(x, ast.Assign)]:
+                t = a.targets[0]
+                if isinstance(t, ast.Subscript) and isinstance(t.value, ast.Name) and t.value.id == acc and isinstance(a.value, ast.Subscript):
+                    comp.append((lp, a))
+    ghm = cfg_of(hm)
+    okc = bool(comp) and all(ghm.node_for(merges[0]).id in ghm.reachable_from([ghm.node_for(a)]) for _, a in comp)
+    if comp and okc:
+        lp, a = comp[0]
+        tv = lp.target.elts if isinstance(lp.target, ast.Tuple) else []
+        okc = len(tv) == 2 and norm(a.targets[0].slice) == norm(tv[0]) and norm(a.value.slice) == norm(tv[1]) and norm(lp.iter) == f"{acc}.items()"
+    r7.check(okc, hm, merges[0], f"each generation's renames are merged into the map with `{norm(merges[0])[:60]}` without advancing the entries that already point at a path this generation renames: after A -> B and, a generation later, B -> C the map still says A -> B, the expected set contains B, and verify / diff / create report B as missing although `create -dr` accepted the tree", construct="rename map not composed across generations")
+
     # ------------------------------------------------------------------ R17.6
     r6 = report.rule(
         "R17.6",
